@@ -232,7 +232,7 @@ DIRECTED = [
     "SELECT substring(b FROM 2 FOR 18446744073709551615) FROM t1", "SELECT left(b, -9223372036854775808) FROM t1", "SELECT right(b, 9223372036854775807) FROM t1",
     "SELECT repeat(b, 1000000) FROM t1", "SELECT lpad(b, 2000000, 'x') FROM t1", "SELECT rpad(b, -1, '') FROM t1",
     "SELECT d + 2147483647 FROM t1", "SELECT d - 2147483647 FROM t1", "SELECT d + a FROM t1", "SELECT d - d FROM t1", "SELECT d + INTERVAL '1000000000' YEAR FROM t1",
-    "SELECT EXTRACT(YEAR FROM d) FROM t1", "SELECT date_trunc('month', d) FROM t1", "SELECT CAST(d AS VARCHAR) FROM t1", "SELECT CAST(b AS DATE) FROM t1",
+    "SELECT EXTRACT(YEAR FROM d) FROM t1", "SELECT date_trunc('month', d) FROM t1", "SELECT CAST(d AS VARCHAR) FROM t1", "SELECT CAST(d AS TIMESTAMP) FROM t1", "SELECT CAST(b AS DATE) FROM t1",
     "SELECT CAST(a AS INT) FROM t1", "SELECT CAST(a AS SMALLINT) FROM t1", "SELECT CAST(c AS BIGINT) FROM t1", "SELECT CAST(c AS INT) FROM t1", "SELECT CAST(b AS BIGINT) FROM t1",
     "SELECT CAST(a AS DECIMAL(38,37)) FROM t1", "SELECT CAST(c AS DECIMAL(10,2)) FROM t1", "SELECT CAST(a AS DATE) FROM t1", "SELECT CAST(e AS INT) FROM t1",
     "SELECT CAST('' AS INT)", "SELECT CAST('9223372036854775808' AS BIGINT)", "SELECT CAST(1e400 AS DOUBLE)", "SELECT CAST(1e19 AS BIGINT)",
@@ -332,8 +332,8 @@ def classify(sql):
         return "join-cost-overflow"
     if re.search(r"\babs\s*\(", sql, re.I):
         return "abs-int-min"
-    if re.search(r"\b(extract|date_trunc|interval|year|month|day|date_part)\b", sql, re.I) and re.search(r"\bd\b", sql):
-        return "date-extreme"
+    if re.search(r"\bas\s+timestamp\b", sql, re.I) and re.search(r"\bd\b", sql):
+        return "date-extreme"    # only the arrow-cast Date32 -> Timestamp overflow is left (e607feb repaired the engine's own sites)
     return None
 
 
